@@ -467,3 +467,110 @@ def high_index_block():
                     table = {leaf["name"]: [None if x else dvals[next(it)] for x in nulls]}
                     out.append((lf, table, cats))
     return out
+
+
+# ---------------------------------------------------------------------------------------------
+# wave 6: statistics filled as the format prescribes, chunk contents adversarial w.r.t. their own statistics
+
+import struct as _struct
+
+
+def _f2u(x, double):
+    return _struct.unpack("<Q" if double else "<I", _struct.pack("<d" if double else "<f", x))[0]
+
+
+def _u2f(u, double):
+    return _struct.unpack("<d" if double else "<f", _struct.pack("<Q" if double else "<I", u))[0]
+
+
+def spec_stats_of(leaf, cells, null_count=True, zero_rule=True):
+    """Statistics of a chunk per parquet.thrift: NULLs and NaN excluded from min_value / max_value, signed or unsigned order by the
+    logical type, -0.0 as min and +0.0 as max when a zero is the bound (zero_rule), PLAIN little-endian bytes.  None for other types."""
+    tag, t = leaf["tag"], leaf["type"]
+    vals = [c for c in cells if c is not None]
+    nc = sum(1 for c in cells if c is None)
+    st = {"min": None, "max": None, "null_count": nc if null_count else None}
+    if tag in ("float", "double"):
+        d = tag == "double"
+        fs = [(_u2f(v, d), v) for v in vals]
+        fs = [(f, v) for f, v in fs if f == f]
+        if fs:
+            lo = min(fs, key=lambda p: (p[0], 0 if p[1] >> (63 if d else 31) else 1))[1]      # -0.0 sorts before +0.0
+            hi = max(fs, key=lambda p: (p[0], 0 if p[1] >> (63 if d else 31) else 1))[1]
+            if zero_rule and _u2f(lo, d) == 0.0:
+                lo = _f2u(-0.0, d)
+            if zero_rule and _u2f(hi, d) == 0.0:
+                hi = _f2u(0.0, d)
+            w = 8 if d else 4
+            st["min"], st["max"] = lo.to_bytes(w, "little").hex(), hi.to_bytes(w, "little").hex()
+        return st
+    if t in (1, 2) and tag in ("int32", "int32c", "int8", "int16", "int64", "int64c", "uint8", "uint16", "uint32", "uint64", "ts_ms", "ts_us", "ts_ns", "date", "time_ms", "time_us"):
+        bits = 32 if t == 1 else 64
+        signed = not tag.startswith("uint")
+        key = (lambda v: v - (1 << bits) if v >> (bits - 1) else v) if signed else (lambda v: v)
+        if vals:
+            st["min"] = min(vals, key=key).to_bytes(bits // 8, "little").hex()
+            st["max"] = max(vals, key=key).to_bytes(bits // 8, "little").hex()
+        return st
+    return {"min": None, "max": None, "null_count": st["null_count"]}
+
+
+def attach_spec_stats(lf, table, null_count=True, zero_rule=True):
+    """lf["spec_stats"] from the table (cells per column over the row groups in order)"""
+    at = {l["name"]: 0 for l in lf["leaves"]}
+    out = []
+    for rg in lf["rgs"]:
+        row = []
+        for l, c in zip(lf["leaves"], rg):
+            n = sum(it["n"] for it in c["items"] if "store" in it)
+            cells = table[l["name"]][at[l["name"]]:at[l["name"]] + n]
+            at[l["name"]] += n
+            row.append(spec_stats_of(l, cells, null_count, zero_rule))
+        out.append(row)
+    lf["spec_stats"] = out
+    return lf
+
+
+def stats_block():
+    """-> [(lfile, table)] deterministic: chunks whose contents are adversarial w.r.t. their own (correct) statistics"""
+    out = []
+    for tag, ptype in (("double", 5), ("float", 4), ("int64", 2), ("int32", 1)):
+        d = tag == "double"
+        isf = tag in ("double", "float")
+        one = _f2u(1.5, d) if isf else 7
+        nan = _f2u(float("nan"), d) if isf else None
+        pz, nz = (_f2u(0.0, d), _f2u(-0.0, d)) if isf else (0, 0)
+        contents = [("constant", [one] * 6, False, True, True)]
+        contents.append(("equal+NULL, null_count absent", [one, None, one, one, None, one], True, False, True))
+        contents.append(("equal+NULL, null_count given", [one, None, one, one, None, one], True, True, True))
+        if isf:
+            contents.append(("equal+NaN", [one, nan, one, one, nan, one], False, True, True))
+            contents.append(("only NaN", [nan, nan, nan], False, True, True))
+            contents.append(("+-0.0, bounds -0.0/+0.0", [pz, nz, pz, nz], False, True, True))
+            contents.append(("+-0.0, bounds both +0.0", [pz, nz, pz, nz], False, True, False))
+        for what, cells, optional, ncount, zrule in contents:
+            for v2 in (False, True):
+                for enc in ("plain", "dict"):
+                    leaf = {"name": "s_%s" % tag, "type": ptype, "tlen": 0, "optional": optional, "conv": None, "logical": None,
+                            "scale": None, "precision": None, "tag": tag}
+                    vals = [c for c in cells if c is not None]
+                    levels = [0 if c is None else 1 for c in cells]
+                    items = []
+                    if enc == "dict":
+                        dv = []
+                        for v in vals:
+                            if v not in dv:
+                                dv.append(v)
+                        items.append({"dict": 0, "vals": dv})
+                        ix = [dv.index(v) for v in vals]
+                        w = max(1, (len(dv) - 1).bit_length())
+                        store = ["dictidx", 8 if v2 else 2, w, [["b", ix]]]
+                    else:
+                        store = ["plain", vals]
+                    items.append({"v2": v2, "n": len(cells), "def": ([["b", levels]] if optional else []), "store": store, "iscomp": None, "trail": ""})
+                    lf = {"leaves": [leaf], "rgs": [[{"codec": 0, "stats": True, "items": items}]], "created_by": "parquet-mr version 1.12.3 (build abc)",
+                          "what": what}
+                    table = {leaf["name"]: list(cells)}
+                    out.append(attach_spec_stats(lf, table, null_count=ncount, zero_rule=zrule))
+                    out[-1] = (lf, table)
+    return out
